@@ -6,7 +6,8 @@ EXTENDS MC_S3, Json, IOUtils
 Str(s) == s
 KD == <<75, 68, 77, 88>>                   \* "KDMX"
 KE == <<75, 68, 77, 89>>                   \* "KDMY"
-Names == {<<97>>, <<98, 38, 60, 62, 34, 39>>, <<233, 8364>>, <<50, 48, 50, 52, 45, 48, 48, 49, 45, 83>>}
+Names == {<<97>>, <<98, 38, 60, 62, 34, 39>>, <<233, 8364>>, <<50, 48, 50, 52, 45, 48, 48, 49, 45, 83>>,
+          <<32, 97, 32>>, <<9, 98, 10>>}            \* " a " and TAB b LF: white space at the edges of a key is part of the key
 RtKeys == {RealtimeKey(KD, 5, n) : n \in Names} \cup {RealtimeKey(KD, 57, <<97>>), RealtimeKey(KE, 5, <<97>>), RealtimeKey(KD, 5, <<120, 47, 121>>)}
 RtBuckets == {{[key |-> k, lm |-> <<19800 + Len(k), 1000 * Len(k) + 250>>, size |-> Len(k)] : k \in S} : S \in {T \in SUBSET RtKeys : Cardinality(T) <= 4}}
 RtVec(b, site, vol, mk) == [api |-> "realtime", site |-> site, vol |-> vol, max |-> mk, bucket |-> SetToSeq(b),
